@@ -513,6 +513,66 @@ def backwardInduction (d : DDP α) (T : Nat) (vTerm : Option (List α)) :
 
 end ddp
 
+/-! ### the object as a state machine: attribute reassignment, in-place edits, queries
+
+`DiscreteDP` keeps `R`, `Q`, `beta` as public attributes. `Op` lists what a caller can do to
+one object between queries; `run` is the history semantics: setters replace the state, queries
+answer **from the current state and their arguments only** and leave the state unchanged. -/
+
+inductive Op (α : Type) where
+  | setBeta (b : α)                         -- `ddp.beta = b`
+  | setReward (j : Nat) (r : Ext α)         -- `ddp.R[j] = r` (SA: stored pair `j`; product: flat index `s*m+a`)
+  | setRow (j : Nat) (q : List α)           -- `ddp.Q[j, :] = q` (same indexing)
+  | bellman (v : List α)                    -- `ddp.bellman_operator(v)` (with or without output arrays)
+  | tsigma (sigma : List Nat) (v : List α)  -- `ddp.T_sigma(sigma)(v)`
+
+inductive Ans (α : Type) where
+  | none
+  | bell (tv : List (Ext α)) (sg : List Nat)
+  | vec (x : Option (List (Ext α)))
+
+section obj
+variable {α : Type}
+
+def DDP.setBeta : DDP α → α → DDP α
+  | .sa d, b => .sa { d with beta := b }
+  | .prod d, b => .prod { d with beta := b }
+
+def DDP.setReward : DDP α → Nat → Ext α → DDP α
+  | .sa d, j, r => .sa { d with R := d.R.set j r }
+  | .prod d, j, r =>
+    if d.m = 0 then .prod d
+    else .prod { d with R := d.R.set (j / d.m) ((d.R.getD (j / d.m) []).set (j % d.m) r) }
+
+def DDP.setRow : DDP α → Nat → List α → DDP α
+  | .sa d, j, q => .sa { d with Q := d.Q.set j q }
+  | .prod d, j, q =>
+    if d.m = 0 then .prod d
+    else .prod { d with Q := d.Q.set (j / d.m) ((d.Q.getD (j / d.m) []).set (j % d.m) q) }
+
+/-- state after an operation: setters replace an attribute, queries change nothing -/
+def Op.next (d : DDP α) : Op α → DDP α
+  | .setBeta b => d.setBeta b
+  | .setReward j r => d.setReward j r
+  | .setRow j q => d.setRow j q
+  | .bellman _ => d
+  | .tsigma _ _ => d
+
+variable [Zero α] [Add α] [Mul α] [LT α] [DecidableLT α]
+
+/-- answer of an operation in state `d` -/
+def Op.answer (d : DDP α) : Op α → Ans α
+  | .bellman v => let b := d.bellman v; .bell b.1 b.2
+  | .tsigma sigma v => .vec (d.tSigma sigma v)
+  | _ => .none
+
+/-- a history of operations on one object: the list of answers -/
+def run (d : DDP α) : List (Op α) → List (Ans α)
+  | [] => []
+  | op :: rest => op.answer d :: run (op.next d) rest
+
+end obj
+
 /-! ### line protocol -/
 
 def parseExt? (s : String) : Option (Ext Rat) :=
@@ -565,6 +625,27 @@ def rqShow (rq : Option (List (Ext Rat) × List (List Rat))) : String :=
   | some (R, Q) => "R=" ++ showList showExt R ++ "|Q=" ++ showMat showRat Q
   | none => "undef"
 
+def parseOp? (t : String) : Option (Op Rat) :=
+  match t.splitOn "~" with
+  | ["B", b] => (parseRat? b).map .setBeta
+  | ["R", j, r] => match j.toNat?, parseExt? r with
+    | some j, some r => some (.setReward j r)
+    | _, _ => none
+  | ["Q", j, q] => match j.toNat?, parseList? parseRat? q with
+    | some j, some q => some (.setRow j q)
+    | _, _ => none
+  | ["T", v] => (parseList? parseRat? v).map .bellman
+  | ["S", sg, v] => match parseList? parseNat? sg, parseList? parseRat? v with
+    | some sg, some v => some (.tsigma sg v)
+    | _, _ => none
+  | _ => none
+
+def showAns : Ans Rat → String
+  | .none => "."
+  | .bell tv sg => "Tv=" ++ showList showExt tv ++ "|sigma=" ++ showList toString sg
+  | .vec (some x) => showList showExt x
+  | .vec none => "undef"
+
 def runOp (op : String) (r : List String) (d : DDP Rat) : String :=
   match op with
   | "ctor" =>
@@ -616,6 +697,10 @@ def runOp (op : String) (r : List String) (d : DDP Rat) : String :=
         | some (vs, ss) => "vs=" ++ showMat showRat vs ++ "|sigmas=" ++ showMat toString ss
         | none => "undef"
     | _, _ => "bad-op"
+  | "hist" =>
+    match (kv r "ops").bind fun t => (t.splitOn "|").mapM parseOp? with
+    | some ops => "#".intercalate ((run d ops).map showAns)
+    | none => "bad-op"
   | "tosa" =>
     match d with
     | .prod d => showExcept showSa (toSaPair d)
